@@ -1,5 +1,6 @@
 import HmsProofs.Lemmas.SimStmt
 import HmsProofs.Lemmas.SimNames
+import HmsProofs.Lemmas.SimFresh
 import HmsProofs.Lemmas.SimPureExec
 /-!
 # The relation between specification scopes, compiler scopes and VM memory
@@ -100,5 +101,526 @@ theorem mangleName_inj (mod x y : String) (c d : Nat) (hx : NoTrailingDigit x) (
 /-- Without the hypothesis the scheme is *not* injective (finding V26): `x1` declared first and
 the eleventh `x` get the same mangled name, hence the same slot. -/
 example : mangleName "main" "x1" 0 = mangleName "main" "x" 10 := by decide
+
+/-! ## Scopes and memory -/
+
+abbrev CScopes := List (List (String × String))
+abbrev SScopes := List (List (String × Val))
+
+section Rel
+variable (T : List String) (σ : String → Nat) (lim : Limits) (mp : Int)
+
+/-- The slot of mangled name `m` is a legal cell holding `v`. -/
+def SlotOK (mem : List (Int × Val)) (m : String) (v : Val) : Prop :=
+  0 ≤ mp - (σ m : Int) ∧ mp - (σ m : Int) < (lim.memory : Int) ∧ mem.lookup (mp - (σ m : Int)) = some v
+
+/-- One scope level: tracked identifiers are bound on both sides or on neither. -/
+def LevelRel (mem : List (Int × Val)) (csc : List (String × String)) (ssc : List (String × Val)) : Prop :=
+  ∀ x ∈ T, match csc.lookup x, ssc.lookup x with
+    | some m, some v => SlotOK σ lim mp mem m v
+    | none, none => True
+    | _, _ => False
+
+def ScopesRel (mem : List (Int × Val)) : CScopes → SScopes → Prop
+  | [], [] => True
+  | c :: cs, s :: ss => LevelRel T σ lim mp mem c s ∧ ScopesRel mem cs ss
+  | _, _ => False
+
+/-- The mangled names bound (to tracked identifiers) in one level / in all levels. -/
+def levelNames (sc : List (String × String)) : List String := (sc.filter fun p => T.contains p.1).map (·.2)
+def liveNames (cs : CScopes) : List String := cs.flatMap (levelNames T)
+
+theorem lookup_mem {α β} [BEq α] [LawfulBEq α] (l : List (α × β)) (k : α) (v : β) (h : l.lookup k = some v) :
+    (k, v) ∈ l := by
+  obtain ⟨l1, l2, rfl, _⟩ := List.lookup_eq_some_iff.mp h
+  simp
+
+theorem lookup_mem_levelNames (sc : List (String × String)) (x m : String) (hx : x ∈ T)
+    (h : sc.lookup x = some m) : m ∈ levelNames T sc := by
+  unfold levelNames
+  refine List.mem_map.mpr ⟨(x, m), ?_, rfl⟩
+  exact List.mem_filter.mpr ⟨lookup_mem _ _ _ h, by simpa using hx⟩
+
+theorem ScopesRel.lookup {mem} : ∀ {cs : CScopes} {ss : SScopes}, ScopesRel T σ lim mp mem cs ss →
+    ∀ x ∈ T, match ρS cs x, lookupScopes x ss with
+      | some m, some v => SlotOK σ lim mp mem m v ∧ m ∈ liveNames T cs
+      | none, none => True
+      | _, _ => False := by
+  intro cs
+  induction cs with
+  | nil =>
+    intro ss h x _
+    cases ss with
+    | nil => simp [ρS, lookupScopes]
+    | cons _ _ => exact h.elim
+  | cons c cs ih =>
+    intro ss h x hx
+    cases ss with
+    | nil => exact h.elim
+    | cons s ss =>
+      obtain ⟨h1, h2⟩ := h
+      have hl := h1 x hx
+      have hr := ih h2 x hx
+      simp only [ρS, List.findSome?_cons, lookupScopes] at hr ⊢
+      cases hc : c.lookup x with
+      | some m =>
+        cases hs : s.lookup x with
+        | some v =>
+          simp only [hc, hs] at hl ⊢
+          exact ⟨hl, by simp only [liveNames, List.flatMap_cons, List.mem_append]
+                        exact Or.inl (lookup_mem_levelNames T c x m hx hc)⟩
+        | none => simp only [hc, hs] at hl
+      | none =>
+        cases hs : s.lookup x with
+        | some v => simp only [hc, hs] at hl
+        | none =>
+          simp only []
+          cases h3 : List.findSome? (fun sc => List.lookup x sc) cs with
+          | some m =>
+            cases h4 : lookupScopes x ss with
+            | some v =>
+              simp only [h3, h4] at hr ⊢
+              exact ⟨hr.1, by simp only [liveNames, List.flatMap_cons, List.mem_append]; exact Or.inr hr.2⟩
+            | none => simp only [h3, h4] at hr
+          | none =>
+            cases h4 : lookupScopes x ss with
+            | some v => simp only [h3, h4] at hr
+            | none => trivial
+
+/-- For pure expressions: the environment relation of `exec_pure`. -/
+theorem ScopesRel.envRel {mem} {cs : CScopes} {ss : SScopes} (h : ScopesRel T σ lim mp mem cs ss)
+    (xs : List String) (hT : ∀ x ∈ xs, x ∈ T) (hres : Frag.resolved cs xs = true) :
+    EnvRel (ρS cs) σ lim xs ss mp mem := by
+  intro x hx
+  have hl := h.lookup T σ lim mp x (hT x hx)
+  simp only [Frag.resolved, List.all_eq_true] at hres
+  have hsome := hres x hx
+  cases hc : ρS cs x with
+  | none => simp [hc] at hsome
+  | some m =>
+    cases hs : lookupScopes x ss with
+    | none => simp only [hc, hs] at hl
+    | some v =>
+      simp only [hc, hs] at hl
+      exact ⟨m, v, rfl, rfl, hl.1.1, hl.1.2.1, hl.1.2.2⟩
+
+theorem ScopesRel.push {mem} {cs : CScopes} {ss : SScopes} (h : ScopesRel T σ lim mp mem cs ss) :
+    ScopesRel T σ lim mp mem ([] :: cs) ([] :: ss) :=
+  ⟨fun _ _ => trivial, h⟩
+
+theorem ScopesRel.tail {mem} {cs : CScopes} {ss : SScopes} (h : ScopesRel T σ lim mp mem cs ss) :
+    ScopesRel T σ lim mp mem cs.tail ss.tail := by
+  cases cs with
+  | nil => cases ss with
+    | nil => trivial
+    | cons _ _ => exact h.elim
+  | cons c cs => cases ss with
+    | nil => exact h.elim
+    | cons s ss => exact h.2
+
+theorem LevelRel.mem_congr {mem mem'} {c : List (String × String)} {s : List (String × Val)}
+    (hm : ∀ m ∈ levelNames T c, mem'.lookup (mp - (σ m : Int)) = mem.lookup (mp - (σ m : Int)))
+    (h : LevelRel T σ lim mp mem c s) : LevelRel T σ lim mp mem' c s := by
+  intro x hx
+  have := h x hx
+  cases hc : c.lookup x with
+  | none =>
+    cases hs : s.lookup x with
+    | none => trivial
+    | some v => simp [hc, hs] at this
+  | some m =>
+    cases hs : s.lookup x with
+    | none => simp [hc, hs] at this
+    | some v =>
+      simp only [hc, hs] at this ⊢
+      exact ⟨this.1, this.2.1, by rw [hm m (lookup_mem_levelNames T c x m hx hc)]; exact this.2.2⟩
+
+/-- Memory writes outside the live slots keep the relation. -/
+theorem ScopesRel.mem_congr {mem mem'} : ∀ {cs : CScopes} {ss : SScopes},
+    (∀ m ∈ liveNames T cs, mem'.lookup (mp - (σ m : Int)) = mem.lookup (mp - (σ m : Int))) →
+    ScopesRel T σ lim mp mem cs ss → ScopesRel T σ lim mp mem' cs ss := by
+  intro cs
+  induction cs with
+  | nil => intro ss _ h; cases ss <;> exact h
+  | cons c cs ih =>
+    intro ss hm h
+    cases ss with
+    | nil => exact h.elim
+    | cons s ss =>
+      simp only [liveNames, List.flatMap_cons, List.mem_append] at hm
+      exact ⟨h.1.mem_congr T σ lim mp (fun m hmm => hm m (Or.inl hmm)),
+        ih (fun m hmm => hm m (Or.inr hmm)) h.2⟩
+
+end Rel
+
+/-! ## Memory writes -/
+
+/-- `memSet` on the memory component. -/
+def memSetL (mem : List (Int × Val)) (a : Int) (v : Val) : List (Int × Val) :=
+  (a, v) :: mem.filter (·.1 != a)
+
+theorem lookup_memSet (mem : List (Int × Val)) (a b : Int) (v : Val) :
+    (memSetL mem a v).lookup b = if b = a then some v else mem.lookup b := by
+  unfold memSetL
+  by_cases h : b = a
+  · subst h; simp
+  · have : (b == a) = false := by simpa using h
+    simp only [List.lookup_cons, this, h, if_false]
+    induction mem with
+    | nil => rfl
+    | cons p mem ih =>
+      obtain ⟨k, w⟩ := p
+      by_cases hk : k = a
+      · subst hk
+        have : (b == k) = false := by simpa using h
+        simp [List.lookup_cons, this, ih]
+      · have hk' : (k != a) = true := by simpa using hk
+        simp only [List.filter_cons, hk', if_true, List.lookup_cons]
+        split <;> simp_all
+
+theorem lookup_filter_ne {β} (l : List (String × β)) (x y : String) (h : y ≠ x) :
+    (l.filter (·.1 != x)).lookup y = l.lookup y := by
+  induction l with
+  | nil => rfl
+  | cons p l ih =>
+    obtain ⟨k, w⟩ := p
+    by_cases hk : k = x
+    · subst hk
+      have : (y == k) = false := by simpa using h
+      simp [List.lookup_cons, this, ih]
+    · have hk' : (k != x) = true := by simpa using hk
+      simp only [List.filter_cons, hk', if_true, List.lookup_cons, ih]
+
+/-! ## The full invariant -/
+
+/-- Facts about the fixed parameters: tracked identifiers have no trailing digit, the slot
+assignment is injective on the name set `N`, and every name of `N` has a legal cell. -/
+structure Good (T : List String) (N : String → Prop) (σ : String → Nat) (lim : Limits) (mp : Int) : Prop where
+  noDigit : ∀ x ∈ T, NoTrailingDigit x
+  inj : ∀ a b, N a → N b → σ a = σ b → a = b
+  frame : ∀ m, N m → 0 ≤ mp - (σ m : Int) ∧ mp - (σ m : Int) < (lim.memory : Int)
+
+/-- Every tracked binding carries a `mangleName` with a counter below the current one. -/
+def Named (mod : String) (T : List String) (vm : List (String × Nat)) (cs : CScopes) : Prop :=
+  ∀ sc ∈ cs, ∀ p ∈ sc, p.1 ∈ T → ∃ c, p.2 = mangleName mod p.1 c ∧ c < cnt vm p.1
+
+structure StRel (mod : String) (T : List String) (N : String → Prop) (σ : String → Nat) (lim : Limits)
+    (mp : Int) (cs : CScopes) (vm : List (String × Nat)) (ss : SScopes) (mem : List (Int × Val)) : Prop where
+  scopes : ScopesRel T σ lim mp mem cs ss
+  nodup : (liveNames T cs).Nodup
+  inN : ∀ m ∈ liveNames T cs, N m
+  named : Named mod T vm cs
+
+theorem mem_liveNames (T : List String) (cs : CScopes) (m : String) :
+    m ∈ liveNames T cs ↔ ∃ sc ∈ cs, ∃ p ∈ sc, p.1 ∈ T ∧ p.2 = m := by
+  simp only [liveNames, List.mem_flatMap, levelNames, List.mem_map, List.mem_filter, List.contains_iff_mem]
+  constructor
+  · rintro ⟨sc, hsc, p, ⟨hp, hT⟩, rfl⟩; exact ⟨sc, hsc, p, hp, hT, rfl⟩
+  · rintro ⟨sc, hsc, p, hp, hT, rfl⟩; exact ⟨sc, hsc, p, ⟨hp, hT⟩, rfl⟩
+
+/-- The variable counters after `freshVar`. -/
+theorem cnt_freshVar (mod : String) (env : CEnv) (x k : String) :
+    cnt (freshVar mod env x).2.vm k = if k = x then cnt env.vm x + 1 else cnt env.vm k :=
+  cnt_fresh "" env.vm x k
+
+/-- A fresh name differs from every live name. -/
+theorem fresh_ne_live {mod T N σ lim mp cs vm} (hg : Good T N σ lim mp) (hn : Named mod T vm cs)
+    (x : String) (hx : x ∈ T) : ∀ m ∈ liveNames T cs, m ≠ mangleName mod x (cnt vm x) := by
+  intro m hm heq
+  obtain ⟨sc, hsc, p, hp, hpT, rfl⟩ := (mem_liveNames T cs m).mp hm
+  obtain ⟨c, hc, hlt⟩ := hn sc hsc p hp hpT
+  rw [hc] at heq
+  obtain ⟨e1, e2⟩ := mangleName_inj mod p.1 x c _ (hg.noDigit _ hpT) (hg.noDigit _ hx) heq
+  rw [e1] at hlt
+  omega
+
+/-- The specification's `declare` on the scope stack. -/
+def declScopes (x : String) (v : Val) : SScopes → SScopes
+  | s :: rest => ((x, v) :: s) :: rest
+  | [] => [[(x, v)]]
+
+theorem levelNames_filter_sublist (T : List String) (c : List (String × String)) (q : String × String → Bool) :
+    (levelNames T (c.filter q)).Sublist (levelNames T c) := by
+  unfold levelNames
+  exact (List.Sublist.filter _ List.filter_sublist).map _
+
+/-- **`let`** keeps the invariant: the new binding gets a fresh name, its cell is written, and no
+live cell is touched. -/
+theorem StRel.declare {mod T N σ lim mp ss mem} {env : CEnv} (hg : Good T N σ lim mp)
+    (h : StRel mod T N σ lim mp env.scopes env.vm ss mem) (x : String) (hx : x ∈ T) (v : Val)
+    (hN : N (freshVar mod env x).1) :
+    StRel mod T N σ lim mp (freshVar mod env x).2.scopes (freshVar mod env x).2.vm (declScopes x v ss)
+      (memSetL mem (mp - (σ (freshVar mod env x).1 : Int)) v) := by
+  have hfresh := fresh_ne_live hg h.named x hx
+  have hm'def : (freshVar mod env x).1 = mangleName mod x (cnt env.vm x) := rfl
+  generalize hm' : (freshVar mod env x).1 = m' at *
+  subst hm'def
+  -- live cells are untouched
+  have hkeep : ∀ m ∈ liveNames T env.scopes,
+      (memSetL mem (mp - (σ (mangleName mod x (cnt env.vm x)) : Int)) v).lookup (mp - (σ m : Int)) =
+        mem.lookup (mp - (σ m : Int)) := by
+    intro m hm
+    rw [lookup_memSet]
+    have hne : σ m ≠ σ (mangleName mod x (cnt env.vm x)) := fun e =>
+      hfresh m hm (hg.inj _ _ (h.inN m hm) hN e)
+    rw [if_neg (by omega)]
+  have hslot : SlotOK σ lim mp (memSetL mem (mp - (σ (mangleName mod x (cnt env.vm x)) : Int)) v)
+      (mangleName mod x (cnt env.vm x)) v :=
+    ⟨(hg.frame _ hN).1, (hg.frame _ hN).2, by rw [lookup_memSet]; simp⟩
+  have hvm : ∀ k, cnt env.vm k ≤ cnt (freshVar mod env x).2.vm k := by
+    intro k; rw [cnt_freshVar]; split <;> (try subst_vars) <;> omega
+  have hnamedNew : ∃ c, mangleName mod x (cnt env.vm x) = mangleName mod x c ∧ c < cnt (freshVar mod env x).2.vm x :=
+    ⟨cnt env.vm x, rfl, by rw [cnt_freshVar]; simp⟩
+  cases hcs : env.scopes with
+  | nil =>
+    have hsc : (freshVar mod env x).2.scopes = [[(x, mangleName mod x (cnt env.vm x))]] := by
+      unfold freshVar; simp only [hcs]; rfl
+    rw [hsc]
+    cases ss with
+    | cons _ _ => have := h.scopes; rw [hcs] at this; exact this.elim
+    | nil =>
+      refine ⟨⟨?_, trivial⟩, ?_, ?_, ?_⟩
+      · intro y hy
+        by_cases hyx : y = x
+        · subst hyx; simpa [List.lookup_cons] using hslot
+        · have : (y == x) = false := by simpa using hyx
+          simp [List.lookup_cons, this]
+      · simp only [liveNames, List.flatMap_cons, List.flatMap_nil, List.append_nil, levelNames]
+        exact (List.nodup_cons.mpr ⟨by simp, List.nodup_nil⟩).sublist
+          ((List.filter_sublist).map _)
+      · intro m hm
+        obtain ⟨sc, hsc', p, hp, hpT, rfl⟩ := (mem_liveNames T _ m).mp hm
+        simp only [List.mem_singleton] at hsc'
+        subst hsc'
+        simp only [List.mem_singleton] at hp
+        subst hp
+        exact hN
+      · intro sc hsc' p hp hpT
+        simp only [List.mem_singleton] at hsc'
+        subst hsc'
+        simp only [List.mem_singleton] at hp
+        subst hp
+        exact hnamedNew
+  | cons c crest =>
+    have hsc : (freshVar mod env x).2.scopes =
+        ((x, mangleName mod x (cnt env.vm x)) :: c.filter (·.1 != x)) :: crest := by
+      unfold freshVar; simp only [hcs]; rfl
+    rw [hsc]
+    have hscopes := h.scopes
+    have hnodup := h.nodup
+    have hinN := h.inN
+    have hnamed := h.named
+    rw [hcs] at hscopes hnodup hinN hnamed hkeep hfresh
+    cases ss with
+    | nil => exact hscopes.elim
+    | cons s srest =>
+      obtain ⟨hl, hrest⟩ := hscopes
+      simp only [liveNames, List.flatMap_cons, List.mem_append] at hkeep hfresh hinN
+      refine ⟨⟨?_, ?_⟩, ?_, ?_, ?_⟩
+      · intro y hy
+        by_cases hyx : y = x
+        · subst hyx; simpa [List.lookup_cons] using hslot
+        · have hb : (y == x) = false := by simpa using hyx
+          have := (hl.mem_congr T σ lim mp (fun m hm => hkeep m (Or.inl hm))) y hy
+          simpa [List.lookup_cons, hb, lookup_filter_ne _ _ _ hyx] using this
+      · exact ScopesRel.mem_congr T σ lim mp (fun m hm => hkeep m (Or.inr hm)) hrest
+      · simp only [liveNames, List.flatMap_cons] at hnodup ⊢
+        have hsub : (levelNames T ((x, mangleName mod x (cnt env.vm x)) :: c.filter (·.1 != x)) ++
+            List.flatMap (levelNames T) crest).Sublist
+            (mangleName mod x (cnt env.vm x) :: (levelNames T c ++ List.flatMap (levelNames T) crest)) := by
+          have h1 : (levelNames T ((x, mangleName mod x (cnt env.vm x)) :: c.filter (·.1 != x))).Sublist
+              (mangleName mod x (cnt env.vm x) :: levelNames T c) := by
+            unfold levelNames
+            have hc : T.contains x = true := by simpa using hx
+            simp only [List.filter_cons, hc, if_true, List.map_cons]
+            exact ((List.Sublist.filter _ List.filter_sublist).map _).cons_cons _
+          exact (h1.append (List.Sublist.refl _))
+        refine List.Sublist.nodup hsub (List.nodup_cons.mpr ⟨?_, hnodup⟩)
+        intro hmem
+        rcases List.mem_append.mp hmem with hm | hm
+        · exact hfresh _ (Or.inl hm) rfl
+        · exact hfresh _ (Or.inr hm) rfl
+      · intro m hm
+        simp only [liveNames, List.flatMap_cons, List.mem_append] at hm
+        rcases hm with hm | hm
+        · unfold levelNames at hm
+          have hc : T.contains x = true := by simpa using hx
+          simp only [List.filter_cons, hc, if_true, List.map_cons, List.mem_cons] at hm
+          rcases hm with rfl | hm
+          · exact hN
+          · exact hinN m (Or.inl ((levelNames_filter_sublist T c _).mem hm))
+        · exact hinN m (Or.inr hm)
+      · intro sc hsc' p hp hpT
+        simp only [List.mem_cons] at hsc'
+        rcases hsc' with rfl | hsc'
+        · simp only [List.mem_cons] at hp
+          rcases hp with rfl | hp
+          · exact hnamedNew
+          · obtain ⟨c', e, hlt⟩ := hnamed c (by simp) p (List.mem_filter.mp hp).1 hpT
+            exact ⟨c', e, Nat.lt_of_lt_of_le hlt (hvm _)⟩
+        · obtain ⟨c', e, hlt⟩ := hnamed sc (by simp [hsc']) p hp hpT
+          exact ⟨c', e, Nat.lt_of_lt_of_le hlt (hvm _)⟩
+
+/-! ## Assignment -/
+
+/-- The per-entry update of `assignScopes`. -/
+def assignMap (x : String) (v : Val) : String × Val → String × Val :=
+  fun (k, old) => if k == x then (k, v) else (k, old)
+
+theorem assignMap_mk (x : String) (v : Val) (k : String) (w : Val) :
+    assignMap x v (k, w) = if k == x then (k, v) else (k, w) := rfl
+
+theorem assignScopes_cons_some (x : String) (v : Val) (s : List (String × Val)) (ss : SScopes)
+    (h : (s.lookup x).isSome = true) : assignScopes x v (s :: ss) = some (s.map (assignMap x v) :: ss) := by
+  unfold assignScopes
+  simp only [h, if_true]
+  rfl
+
+theorem assignScopes_cons_none (x : String) (v : Val) (s : List (String × Val)) (ss : SScopes)
+    (h : s.lookup x = none) : assignScopes x v (s :: ss) = (assignScopes x v ss).map (s :: ·) := by
+  rw [assignScopes]
+  simp [h]
+
+theorem lookup_assign_self (s : List (String × Val)) (x : String) (v : Val) (h : (s.lookup x).isSome = true) :
+    (s.map (assignMap x v)).lookup x = some v := by
+  induction s with
+  | nil => simp at h
+  | cons p s ih =>
+    obtain ⟨k, w⟩ := p
+    simp only [List.map_cons, assignMap_mk, List.lookup_cons] at h ⊢
+    by_cases hk : k = x
+    · subst hk; simp
+    · have hk' : (k == x) = false := by simpa using hk
+      have hk'' : (x == k) = false := beq_eq_false_iff_ne.mpr (Ne.symm hk)
+      simp only [hk', hk'', Bool.false_eq_true, if_false, List.lookup_cons] at h ⊢
+      exact ih h
+
+theorem lookup_assign_ne (s : List (String × Val)) (x y : String) (v : Val) (h : y ≠ x) :
+    (s.map (assignMap x v)).lookup y = s.lookup y := by
+  induction s with
+  | nil => rfl
+  | cons p s ih =>
+    obtain ⟨k, w⟩ := p
+    simp only [List.map_cons, assignMap_mk]
+    by_cases hk : k = x
+    · subst hk
+      have : (y == k) = false := by simpa using h
+      simp only [beq_self_eq_true, if_true, List.lookup_cons, this, ih]
+    · have hk' : (k == x) = false := by simpa using hk
+      simp only [hk', Bool.false_eq_true, if_false, List.lookup_cons, ih]
+
+theorem assign_scopes {mod T N σ lim mp vm mem} (hg : Good T N σ lim mp) (x : String) (hx : x ∈ T)
+    (m : String) (v : Val) : ∀ (cs : CScopes) (ss : SScopes),
+    ScopesRel T σ lim mp mem cs ss → Named mod T vm cs → (liveNames T cs).Nodup →
+    (∀ m ∈ liveNames T cs, N m) → ρS cs x = some m →
+    ∃ ss', assignScopes x v ss = some ss' ∧
+      ScopesRel T σ lim mp (memSetL mem (mp - (σ m : Int)) v) cs ss' := by
+  intro cs
+  induction cs with
+  | nil => intro ss _ _ _ _ hρ; simp [ρS] at hρ
+  | cons c cs ih =>
+    intro ss hrel hnamed hnodup hinN hρ
+    cases ss with
+    | nil => exact hrel.elim
+    | cons s ss =>
+      obtain ⟨hl, hrest⟩ := hrel
+      simp only [liveNames, List.flatMap_cons] at hnodup hinN
+      have hNm : N m := by
+        have := (ScopesRel.lookup T σ lim mp (cs := c :: cs) (ss := s :: ss) ⟨hl, hrest⟩ x hx)
+        rw [hρ] at this
+        cases hls : lookupScopes x (s :: ss) with
+        | none => simp [hls] at this
+        | some v0 =>
+          simp only [hls] at this
+          exact hinN m (by simpa [liveNames] using this.2)
+      -- a binding of another identifier has another name, hence another cell
+      have hother : ∀ (sc : List (String × String)), sc ∈ c :: cs → ∀ y m2, y ∈ T → y ≠ x → (y, m2) ∈ sc →
+          ∀ c1, m = mangleName mod x c1 → m2 ≠ m := by
+        intro sc hsc y m2 hy hyx hmem c1 hm e
+        obtain ⟨c2, e2, _⟩ := hnamed sc hsc (y, m2) hmem hy
+        simp only at e2
+        rw [e2, hm] at e
+        exact hyx (mangleName_inj mod y x c2 c1 (hg.noDigit _ hy) (hg.noDigit _ hx) e).1
+      have hkeepOf : ∀ m2, N m2 → m2 ≠ m →
+          (memSetL mem (mp - (σ m : Int)) v).lookup (mp - (σ m2 : Int)) = mem.lookup (mp - (σ m2 : Int)) := by
+        intro m2 hN2 hne
+        rw [lookup_memSet]
+        have : σ m2 ≠ σ m := fun e => hne (hg.inj _ _ hN2 hNm e)
+        rw [if_neg (by omega)]
+      simp only [ρS, List.findSome?_cons] at hρ
+      cases hc : c.lookup x with
+      | some m0 =>
+        rw [hc] at hρ
+        simp only [Option.some.injEq] at hρ
+        subst hρ
+        have hlx := hl x hx
+        cases hs : s.lookup x with
+        | none => simp [hc, hs] at hlx
+        | some v0 =>
+          refine ⟨s.map (assignMap x v) :: ss, assignScopes_cons_some x v s ss (by simp [hs]), ⟨?_, ?_⟩⟩
+          · obtain ⟨c1, hc1, _⟩ := hnamed c (by simp) (x, m0) (lookup_mem _ _ _ hc) hx
+            simp only at hc1
+            intro y hy
+            by_cases hyx : y = x
+            · subst hyx
+              rw [hc, lookup_assign_self s y v (by simp [hs])]
+              exact ⟨(hg.frame _ hNm).1, (hg.frame _ hNm).2, by rw [lookup_memSet]; simp⟩
+            · rw [lookup_assign_ne s x y v hyx]
+              have hly := hl y hy
+              cases hcy : c.lookup y with
+              | none =>
+                cases hsy : s.lookup y with
+                | none => trivial
+                | some v2 => simp [hcy, hsy] at hly
+              | some m2 =>
+                cases hsy : s.lookup y with
+                | none => simp [hcy, hsy] at hly
+                | some v2 =>
+                  simp only [hcy, hsy] at hly ⊢
+                  have hne := hother c (by simp) y m2 hy hyx (lookup_mem _ _ _ hcy) c1 hc1
+                  have hN2 := hinN m2 (List.mem_append.mpr (Or.inl (lookup_mem_levelNames T c y m2 hy hcy)))
+                  exact ⟨hly.1, hly.2.1, by rw [hkeepOf m2 hN2 hne]; exact hly.2.2⟩
+          · refine ScopesRel.mem_congr T σ lim mp ?_ hrest
+            intro m2 hm2
+            have hne : m2 ≠ m0 := by
+              intro e; subst e
+              exact (List.nodup_append.mp hnodup).2.2 _ (lookup_mem_levelNames T c x _ hx hc) _ hm2 rfl
+            exact hkeepOf m2 (hinN m2 (List.mem_append.mpr (Or.inr hm2))) hne
+      | none =>
+        rw [hc] at hρ
+        simp only [] at hρ
+        have hlx := hl x hx
+        cases hs : s.lookup x with
+        | some v0 => simp [hc, hs] at hlx
+        | none =>
+          have hnamed' : Named mod T vm cs := fun sc hsc => hnamed sc (by simp [hsc])
+          obtain ⟨ss'', hass, hrel''⟩ := ih ss hrest hnamed' (List.nodup_append.mp hnodup).2.1
+            (fun m2 hm2 => hinN m2 (List.mem_append.mpr (Or.inr hm2))) (by simpa [ρS] using hρ)
+          refine ⟨s :: ss'', by rw [assignScopes_cons_none x v s ss hs, hass]; rfl, ⟨?_, hrel''⟩⟩
+          -- `m` is bound further out: it is some `mangleName mod x c1`
+          have hml : m ∈ liveNames T cs := by
+            have := (ScopesRel.lookup T σ lim mp hrest x hx)
+            have hρ' : ρS cs x = some m := by simpa [ρS] using hρ
+            rw [hρ'] at this
+            cases hls : lookupScopes x ss with
+            | none => simp [hls] at this
+            | some v0 => simp only [hls] at this; exact this.2
+          obtain ⟨sc, hsc, p, hp, hpT, hpm⟩ := (mem_liveNames T cs m).mp hml
+          obtain ⟨c1, hc1, _⟩ := hnamed sc (by simp [hsc]) p hp hpT
+          refine hl.mem_congr T σ lim mp ?_
+          intro m2 hm2
+          have hN2 := hinN m2 (List.mem_append.mpr (Or.inl hm2))
+          refine hkeepOf m2 hN2 ?_
+          intro e
+          subst e
+          exact (List.nodup_append.mp hnodup).2.2 _ hm2 _ hml rfl
+
+theorem StRel.assign {mod T N σ lim mp cs vm ss mem} (hg : Good T N σ lim mp)
+    (h : StRel mod T N σ lim mp cs vm ss mem) (x : String) (hx : x ∈ T) (m : String) (hρ : ρS cs x = some m)
+    (v : Val) :
+    ∃ ss', assignScopes x v ss = some ss' ∧
+      StRel mod T N σ lim mp cs vm ss' (memSetL mem (mp - (σ m : Int)) v) := by
+  obtain ⟨ss', h1, h2⟩ := assign_scopes hg x hx m v cs ss h.scopes h.named h.nodup h.inN hρ
+  exact ⟨ss', h1, ⟨h2, h.nodup, h.inN, h.named⟩⟩
 
 end HmsProofs.Sim
